@@ -152,6 +152,7 @@ def stream(env, entry, entry_src, data, allowed):
     random.seed(20240915)  # the random filter draws from the global generator: make the case a pure function
     chunks = []
     err = None
+    size = 0
     warnings.simplefilter("ignore", SyntaxWarning)  # Python's compile() warns about constant subscripts such as 5[0:3]
     try:
         t = env.from_string(entry_src) if entry is None else env.get_template(entry)
@@ -161,6 +162,9 @@ def stream(env, entry, entry_src, data, allowed):
                 # then fails in concat with this TypeError
                 raise TypeError("sequence item: expected str instance, %s found" % type(chunk).__name__)
             chunks.append(chunk)
+            size += len(chunk)
+            if size > 2_000_000:
+                raise core.Discard()  # generator safeguard (repetition blow-up), not a verdict
     except AssertionError as e:
         if not str(e).startswith("expected length >="):
             raise
